@@ -1,6 +1,6 @@
 (* C04 property theorems ONLY. *)
 From Coq Require Import List ZArith Reals Lra Lia.
-From RV Require Import Common.Num Common.RealNum C04.Model C04.Proofs.
+From RV Require Import Common.Num Common.RealNum C04.Model C04.Proofs C04.ProofsWH.
 Import ListNotations.
 Open Scope R_scope.
 
@@ -52,6 +52,21 @@ Theorem C04_leapfrog_is_a_drift_kick_word : forall F dt ps,
   = run_dk F [D (half RNum * dt); K dt; D (half RNum * dt)] ps.
 Proof. exact leapfrog_is_word. Qed.
 Print Assumptions C04_leapfrog_is_a_drift_kick_word.
+
+(* Wisdom-Holman Kepler drift: the total angular momentum has no cross terms in Jacobi coordinates (C12), so two
+   inertial states with the same masses whose Jacobi images agree in the centre-of-mass term and in every Jacobi
+   body's own angular momentum have the same total angular momentum; the f-g step (f g' - f' g = 1, C03) and the
+   uniform motion of the centre of mass preserve exactly those terms *)
+Theorem C04_wh_drift_conserves_Lz : forall m0 ms, m0 <> 0 -> C12.ProofsL.etas_ok ms m0 ->
+  forall s s' j j', wf ms s -> wf ms s' -> image_of m0 ms s j -> image_of m0 ms s' j' ->
+  JM j' = JM j -> com_lz j' = com_lz j -> body_lz j' = body_lz j -> totLz m0 ms s' = totLz m0 ms s.
+Proof. exact wh_drift_conserves_Lz. Qed.
+Print Assumptions C04_wh_drift_conserves_Lz.
+Theorem C04_fg_step_and_com_drift_conserve_lz :
+  (forall f g fd gd x y vx vy, f * gd - fd * g = 1 ->
+     (f * x + g * vx) * (fd * y + gd * vy) - (f * y + g * vy) * (fd * x + gd * vx) = x * vy - y * vx) /\
+  (forall dt x y vx vy, (x + dt * vx) * vy - (y + dt * vy) * vx = x * vy - y * vx).
+Proof. exact (conj fg_conserves_lz com_drift_conserves_lz). Qed.
 
 (* non-vacuity *)
 Example C04_hypotheses_inhabited :
